@@ -39,6 +39,7 @@ struct SklbV2 {
 #[br(magic = 0x736B6C62i32)]
 #[br(little)]
 struct SKLB {
+    #[br(assert(version == 0x3132_3030u32 || version == 0x3133_3030u32 || version == 0x3133_3031u32))]
     version: u32,
 
     #[br(if(version == 0x3132_3030u32))]
